@@ -28,6 +28,7 @@ type Node struct {
 	HF  bool     `json:"hf,omitempty"`  // has finally
 	Ret bool     `json:"ret,omitempty"` // for-of: the iterator has a return()
 	S   [][]Node `json:"s,omitempty"`   // gen: segments
+	In  *Node    `json:"in,omitempty"`  // async: the async function whose promise is awaited (instead of a plain value)
 }
 
 type Case struct {
@@ -57,6 +58,15 @@ func (r *renderer) js(ns []Node) string {
 		sb.WriteByte('\n')
 	}
 	return sb.String()
+}
+
+// an async function called at once; it awaits either a plain value or the promise of the next function of the chain
+func (r *renderer) jsAsync(n Node) string {
+	awaited := "0"
+	if n.In != nil {
+		awaited = r.jsAsync(*n.In)
+	}
+	return "(async function(){\n" + r.js(n.B) + "await " + awaited + ";\n" + r.js(n.F) + "})()"
 }
 
 func (r *renderer) jsNode(n Node) string {
@@ -131,7 +141,7 @@ func (r *renderer) jsNode(n Node) string {
 		return fmt.Sprintf("var g%d=(function*(){\ntry {\n%syield 1;\n} finally {\nlog(%d);\n%s}\n})();\ng%d.next();\ng%d.return(5);\n",
 			n.Id, r.js(n.B), evid(n.Id, 2), r.js(n.F), n.Id, n.Id)
 	case "async":
-		return "(async function(){\n" + r.js(n.B) + "await 0;\n" + r.js(n.F) + "})();"
+		return r.jsAsync(n) + ";"
 	case "job":
 		return fmt.Sprintf("Promise.resolve().then(function(){\nlog(%d);\n%s});", evid(n.Id, 4), r.js(n.B))
 	}
@@ -225,7 +235,12 @@ func coqNode(n Node) string {
 	case "genret":
 		return fmt.Sprintf("(IGenRet %s %s)", coqCode(n.B), coqEvThen(evid(n.Id, 2), n.F))
 	case "async":
-		return fmt.Sprintf("(IAsync %s %s)", coqCode(n.B), coqCode(n.F))
+		pres, posts := []string{}, []string{}
+		for a := &n; a != nil; a = a.In {
+			pres = append(pres, coqCode(a.B))
+			posts = append([]string{coqCode(a.F)}, posts...) // resumed innermost first
+		}
+		return fmt.Sprintf("(IAsyncN (mks %s) (mks %s))", vh.CoqList(pres), vh.CoqList(posts))
 	case "job":
 		return fmt.Sprintf("(IJob %s)", coqEvThen(evid(n.Id, 4), n.B))
 	}
@@ -258,6 +273,7 @@ type obs struct {
 	FKind, FTok int
 	FLog        []int
 	FIdle       []int
+	FDepth      int // frames of a stack captured by the follow-up run
 	After       int // log/probe calls after an (uncleared) Interrupt of the main call
 	Probes      int
 	PrgNil      int
@@ -382,9 +398,11 @@ func newEnv(k int, clr bool) *env {
 	return e
 }
 
+const followupSrc = `log(776); (function f(){ return new Error("x").stack.split("\n").filter(function(l){ return l.indexOf("at ") >= 0 }).length })()`
+
 func idleVec(vm *goja.Runtime) ([]int, bool, int) {
 	id := goja.VerifIdle(vm)
-	return []int{id["callStack"], id["tryStack"], id["iterStack"], id["jobQueue"], id["interrupted"]}, id["sp"] == 0, id["prgNil"]
+	return []int{id["callStack"], id["tryStack"], id["iterStack"], id["jobQueue"], id["interrupted"], 1 - id["asyncNil"]}, id["sp"] == 0, id["prgNil"]
 }
 
 func execCase(c Case) obs {
@@ -432,7 +450,12 @@ func execCase(c Case) obs {
 	o.Idle, o.Sp0, o.PrgNil = idleVec(vm)
 	e.log = nil
 	e.armed = false
-	_, err2 := vm.RunString("log(776); 1+1")
+	// an unrelated later run: logs, and captures a stack inside a function called from the program
+	fv, err2 := vm.RunString(followupSrc)
+	o.FDepth = -1
+	if err2 == nil && fv != nil {
+		o.FDepth = int(fv.ToInteger())
+	}
 	o.FKind, o.FTok = classify(err2)
 	o.FLog = e.log
 	o.FIdle, _, _ = idleVec(vm)
@@ -448,13 +471,17 @@ func coqTerm(c Case, o obs) string {
 	if c.Mode != 0 {
 		k = 0
 	}
-	return fmt.Sprintf("mkCase %s %d %d %s %s %s %d %d%%N %s %s %s %d %d%%N %s %s",
+	fd := o.FDepth
+	if fd < 0 {
+		fd = 2 // no value: the follow-up did not run to completion; kind/log/idle already tell
+	}
+	return fmt.Sprintf("mkCase %s %d %d %s %s %s %d %d%%N %s %s %s %d %d%%N %s %s %d",
 		entry, c.Mode, k, vh.CoqBool(c.Clr), vh.CoqBool(c.Strict), coqCode(c.Ops),
 		o.Kind, o.Tok, coqNs(o.Log), coqNats(o.Idle), vh.CoqBool(o.Sp0),
-		o.FKind, o.FTok, coqNs(o.FLog), coqNats(o.FIdle))
+		o.FKind, o.FTok, coqNs(o.FLog), coqNats(o.FIdle), fd)
 }
 
-const failTerm = "mkCase ERun 0 0 false true CNil 99 0%N [] [] false 99 0%N [] []"
+const failTerm = "mkCase ERun 0 0 false true CNil 99 0%N [] [] false 99 0%N [] [] 0"
 
 func kinds(ns []Node, acc map[string]bool) {
 	for _, n := range ns {
@@ -469,6 +496,10 @@ func kinds(ns []Node, acc map[string]bool) {
 		kinds(n.B, acc)
 		kinds(n.C, acc)
 		kinds(n.F, acc)
+		if n.In != nil {
+			acc["async:nested"] = true
+			kinds([]Node{*n.In}, acc)
+		}
 		for _, s := range n.S {
 			kinds(s, acc)
 		}
@@ -511,7 +542,7 @@ func runCase(w *vh.Writer, c Case) obs {
 		return vh.Record{
 			Case: cj, Coq: coqTerm(c, o),
 			Obs: fmt.Sprintf("kind=%d tok=%d log=%v idle=%v sp0=%v after=%d | follow kind=%d tok=%d log=%v idle=%v",
-				o.Kind, o.Tok, o.Log, o.Idle, o.Sp0, o.After, o.FKind, o.FTok, o.FLog, o.FIdle),
+				o.Kind, o.Tok, o.Log, o.Idle, o.Sp0, o.After, o.FKind, o.FTok, o.FLog, o.FIdle) + fmt.Sprintf(" depth=%d", o.FDepth),
 			Tags:       tags,
 			Nontrivial: o.Kind == 1 && len(c.Ops) > 0,
 		}
@@ -616,7 +647,15 @@ func (g *gen) node(depth int, inTry bool) Node {
 		}
 		return n
 	case 9:
-		return Node{T: "async", B: g.body(d, true), F: g.body(d, true)}
+		n := Node{T: "async", B: g.body(d, true), F: g.body(d, true)}
+		// chains: outer awaits middle awaits inner
+		cur := &n
+		for depth := 0; depth < 2 && g.r.Chance(55); depth++ {
+			in := Node{T: "async", B: g.body(d, true), F: g.body(d, true)}
+			cur.In = &in
+			cur = cur.In
+		}
+		return n
 	case 10:
 		return Node{T: "job", Id: g.id(), B: g.body(d, true)}
 	default:
